@@ -115,7 +115,7 @@ Qed.
 Lemma xstep_all s t x : cnt x (all_ids (xstep s t)) = cnt x (all_ids s).
 Proof.
   unfold xstep. destruct (nth_error (x_pcs s) t) as [pc|] eqn:N; [|reflexivity].
-  destruct pc as [acts| | | |k|w sp k|i w sp k|i w sp k|i r sp k|].
+  destruct pc as [acts|acts| | | |k|w sp k|i w sp k|i w sp k|i r sp k|].
   - (* step *) destruct acts as [|a acts].
     + pose proof (all_set_pc _ _ _ XDone N x) as H. cbn [pc_ids] in H. rewrite cnt_nil in H. lia.
     + destruct (a =? 1).
@@ -123,6 +123,9 @@ Proof.
         pose proof (all_set_pc _ _ _ (XRchain (KColl acts)) N1 x) as H. cbn [pc_ids] in H. rewrite cnt_nil in H.
         change (cnt x (all_ids s1)) with (cnt x (all_ids s)) in H. lia.
       * pose proof (release_all s t (KColl []) _ N x) as H. cbn [pc_ids] in H. rewrite cnt_nil in H. lia.
+  - (* wait for the registration *) destruct acts as [|a acts].
+    + pose proof (all_set_pc _ _ _ XDone N x) as H. cbn [pc_ids] in H. rewrite cnt_nil in H. lia.
+    + pose proof (all_set_pc _ _ _ (XStep (a :: acts)) N x) as H. cbn [pc_ids] in H. rewrite cnt_nil in H. lia.
   - (* asub *) set (c := (t, t_kind (lis_of s t) =? 2) :: x_chain s).
     assert (N1 : nth_error (x_pcs (set_chain s c)) t = Some XAsub) by exact N.
     pose proof (all_set_pc _ _ _ XApub N1 x) as H. pose proof (all_set_chain s c x) as H2.
@@ -177,12 +180,13 @@ Qed.
 Fixpoint subs_from (thr : list (xpc * xlis)) (k : nat) : list nat :=
   match thr with [] => [] | x :: r => (match fst x with XAsub => [k] | _ => [] end) ++ subs_from r (S k) end.
 
-Definition init_pc (p : xpc) : Prop := match p with XAsub | XStep _ | XDone => True | _ => False end.
+Definition init_pc (p : xpc) : Prop := match p with XAsub | XStep _ | XWaitReg _ | XDone => True | _ => False end.
 
-Lemma tot_init thr : Forall (fun x => init_pc (fst x)) thr -> forall k, tot (map fst thr) k = subs_from thr k.
+Lemma tot_init h thr : Forall (fun x => init_pc (fst x)) thr -> forall k, tot (map (ipc h) thr) k = subs_from thr k.
 Proof.
-  induction 1 as [|[p l] r Hp _ IH]; intros k; cbn [map fst tot subs_from]; [reflexivity|].
-  rewrite IH. cbn [fst] in Hp. destruct p; cbn [pc_ids init_pc] in *; try reflexivity; destruct Hp.
+  induction 1 as [|[p l] r Hp _ IH]; intros k; cbn [map tot subs_from]; [reflexivity|].
+  rewrite IH. unfold ipc. cbn [fst] in *. destruct p; cbn [pc_ids init_pc] in *; try reflexivity; try destruct Hp.
+  destruct h; reflexivity.
 Qed.
 
 Lemma decode_thr_init l : Forall (fun x => init_pc (fst x)) (decode_thr l).
@@ -226,7 +230,7 @@ Proof.
   intros ops fuel sched thr s.
   assert (C : forall x, cnt x (all_ids s) = cnt x (subs_from thr O)).
   { intros x. unfold s. rewrite xrun_all. unfold all_ids, x_init. cbn [x_chain x_pcs x_ev x_resolved map flat_map app].
-    rewrite (tot_init thr (decode_init ops)). rewrite ?cnt_app, ?cnt_nil. lia. }
+    rewrite (tot_init _ thr (decode_init ops)). rewrite ?cnt_app, ?cnt_nil. lia. }
   split; [exact C|].
   apply NoDup_count_occ with (decA := Nat.eq_dec). intros x. fold (cnt x (all_ids s)). rewrite C.
   apply (proj1 (NoDup_count_occ Nat.eq_dec _) (subs_from_nodup thr O)).
